@@ -67,6 +67,7 @@ type Exec struct {
 	onceDone  map[string]bool
 	noSpec    bool
 	specDepth int
+	modes     map[string]bool
 }
 
 func (ex *Exec) logUndo(f func()) {
